@@ -88,6 +88,8 @@ class _Server:
 
         class RecUpload(UploadPackHandler):
             def __init__(self, backend, args, proto, stateless_rpc=False, advertise_refs=False):
+                if outer.log is not None:
+                    outer.log.append(("req", b"advertise" if advertise_refs else b"rpc" if stateless_rpc else b"stream"))
                 instrument(proto)
                 super().__init__(backend, args, proto, stateless_rpc=stateless_rpc, advertise_refs=advertise_refs)
 
@@ -108,11 +110,26 @@ class _Server:
 
         self.idle = threading.Event()
         self.idle.set()
-        self.srv = Srv(AnyPathBackend(), "127.0.0.1", 0,
-                       handlers={b"git-upload-pack": RecUpload, b"git-receive-pack": RecReceive})
+        self.handlers = {b"git-upload-pack": RecUpload, b"git-receive-pack": RecReceive}
+        self.backend = AnyPathBackend()
+        self.srv = Srv(self.backend, "127.0.0.1", 0, handlers=self.handlers)
         self.port = self.srv.server_address[1]
         self.thread = threading.Thread(target=self.srv.serve_forever, kwargs={"poll_interval": 0.005}, daemon=True)
         self.thread.start()
+        self.http_port = None
+
+    def http(self):
+        """dulwich's WSGI smart-HTTP application (stateless-rpc) on loopback, same recording handlers"""
+        if self.http_port is None:
+            from wsgiref.simple_server import make_server
+
+            from dulwich.web import WSGIRequestHandlerLogger, WSGIServerLogger, make_wsgi_chain
+            app = make_wsgi_chain(self.backend, handlers=self.handlers)
+            self.httpd = make_server("127.0.0.1", 0, app, handler_class=WSGIRequestHandlerLogger,
+                                     server_class=WSGIServerLogger)
+            self.http_port = self.httpd.server_address[1]
+            threading.Thread(target=self.httpd.serve_forever, kwargs={"poll_interval": 0.005}, daemon=True).start()
+        return self.http_port
 
     def begin(self):
         self.log, self.rawin, self.errors = [], io.BytesIO(), []
@@ -257,6 +274,8 @@ def _dialogue(u, events, side):
     out = []
     started = False
     for d, p in events:
+        if d == "req":
+            continue
         if p is None:
             if d == ("r" if side == "srv" else "w") and started:
                 out.append([d, "flush"])
@@ -280,6 +299,20 @@ def _dialogue(u, events, side):
         elif w[0] == b"NAK":
             out.append([d, "NAK"])
     return out
+
+
+def _shallow_in_have_loop(clog):
+    """number of shallow / unshallow / flush packets the dulwich client read between its first
+    "have" and its "done" (they belong to the shallow-info section, not to the negotiation)"""
+    n, inside = 0, False
+    for d, p in clog:
+        if d == "w" and p and p.startswith(b"have "):
+            inside = True
+        elif d == "w" and p and p.startswith(b"done"):
+            break
+        elif d == "r" and inside and (p is None or p.startswith((b"shallow ", b"unshallow "))):
+            n += 1
+    return n
 
 
 def _mode_of(caps):
@@ -380,18 +413,28 @@ def run_job(job):
         return [{"tid": job["tid"], "machinery": traceback.format_exc(limit=8)}]
 
 
-def _base_record(job, u, sstore, r0, rrefs):
+def _base_record(job, u, sstore, r0, rtips0, shal0):
     caps = job.get("caps", {})
     return {
         "tid": job["tid"], "U": L.universe_json(u), "op": job["op"], "snd": "d", "rcv": "d",
         "sstore": _objs(sstore), "srefs": _objs(set(_sender_refs(job).values())),
-        "r0": _objs(r0), "rtips0": _objs(set(rrefs.values())), "r1": [], "rtips1": [], "runk": 0, "idbad": 0, "gitok": 2,
+        "r0": list(r0), "rtips0": list(rtips0), "shal0": list(shal0), "depth": int(job.get("depth") or 0),
+        "r1": [], "rtips1": [], "shal1": [], "runk": 0, "idbad": 0, "gitok": 2,
         "wants": [list(w) for w in job["wants"]], "forged": int(job.get("forged", 0)),
         "inctag": int(bool(caps.get("inctag")) and job["op"] != "push" and job["transport"] not in ("local", "localpack")),
         "mwants": [list(w) for w in job["wants"]], "ok": 0, "cap": 0, "sent": [], "sunk": 0, "thin": [],
         "hk": 0, "haves": [], "mode": _mode_of(caps), "srv": [], "cli": [], "rheads": sorted(job["rh"]), "miv": 256,
-        "transport": job["transport"], "err": "", "info": {},
+        "transport": job["transport"], "step": job.get("step", 0), "err": "", "info": {},
     }
+
+
+def _shallow_of(path, u):
+    p = os.path.join(path, "shallow")
+    if not os.path.exists(p):
+        return []
+    with open(p) as f:
+        known, _unk = u.names(ln.strip() for ln in f if ln.strip())
+    return _objs(known)
 
 
 def _run_job(job):
@@ -405,38 +448,53 @@ def _run_job(job):
         rrefs = _receiver_refs(job)
         r0 = L.closure(u, rrefs.values())
         spath, rpath = os.path.join(root, "s"), os.path.join(root, "r")
-        if job["op"] == "push":
-            # the pusher is the sender: it holds sstore; the remote is the receiver
-            pass
         L.materialise(spath, u, sstore, srefs)
         _layout(spath, job.get("slayout", "loose"))
         if job["op"] != "clone":
             L.materialise(rpath, u, r0, rrefs)
             _layout(rpath, job.get("rlayout", "loose"))
-        rec = _base_record(job, u, sstore, r0 if job["op"] != "clone" else set(), rrefs if job["op"] != "clone" else {})
+            before = (_objs(r0), _objs(set(rrefs.values())), [])
+        else:
+            before = ([], [], [])
+        steps = job.get("steps") or [{"wants": job["wants"], "depth": job.get("depth", 0)}]
         fn = TRANSPORTS[(job["op"], job["transport"])]
-        t0 = time.time()
-        fn(job, u, spath, rpath, rec)
-        rec["info"]["ms"] = round((time.time() - t0) * 1000, 1)
-        # projection of the receiving directory by a fresh reader
-        if os.path.isdir(rpath):
-            known, unk, bad = _project_repo(rpath, u)
-            rec["r1"], rec["runk"], rec["idbad"] = _objs(known), unk, bad
-            tips, foreign = u.names(set(_refs_of(rpath).values()))
-            rec["rtips1"] = _objs(tips)
-            rec["info"]["foreign_refs"] = len(foreign)
-            if job.get("gitcheck"):
-                gobjs = L.git_all_objects(rpath)
-                gk, gu = u.names(gobjs.keys())
-                rec["info"]["git_objects_agree"] = int(sorted(gk) == sorted(known) and len(gu) == unk)
-                if not rec["info"]["git_objects_agree"]:
-                    rec["info"]["git_objects"] = _objs(gk)
-                ok, txt = L.git_fsck_connectivity(rpath)
-                rec["info"]["fsck_ok"] = int(ok)
-                if not ok:
-                    rec["info"]["fsck"] = txt[-400:]
-                rec["gitok"] = int(ok and rec["info"]["git_objects_agree"])
-        return [rec]
+        recs = []
+        for k, st in enumerate(steps):
+            sj = dict(job)
+            sj.update(wants=st["wants"], depth=st.get("depth", 0), tid=job["tid"] + k, step=k)
+            if "rh_now" in st:
+                sj["rh"] = st["rh_now"]
+            rec = _base_record(sj, u, sstore, *before)
+            if k:       # the walker starts from whatever refs/heads holds now
+                rec["rheads"] = sorted(o[1] for o in u.names(
+                    v for n, v in _refs_of(rpath).items() if n.startswith("refs/heads/"))[0] if o[0] == "c")
+            t0 = time.time()
+            fn(sj, u, spath, rpath, rec)
+            rec["info"]["ms"] = round((time.time() - t0) * 1000, 1)
+            # projection of the receiving directory by a fresh reader
+            if os.path.isdir(rpath):
+                known, unk, bad = _project_repo(rpath, u)
+                rec["r1"], rec["runk"], rec["idbad"] = _objs(known), unk, bad
+                tips, foreign = u.names(set(_refs_of(rpath).values()))
+                rec["rtips1"] = _objs(tips)
+                rec["shal1"] = _shallow_of(rpath, u)
+                rec["info"]["foreign_refs"] = len(foreign)
+                if job.get("gitcheck"):
+                    gobjs = L.git_all_objects(rpath)
+                    gk, gu = u.names(gobjs.keys())
+                    rec["info"]["git_objects_agree"] = int(sorted(gk) == sorted(known) and len(gu) == unk)
+                    if not rec["info"]["git_objects_agree"]:
+                        rec["info"]["git_objects"] = _objs(gk)
+                    ok, txt = L.git_fsck_connectivity(rpath)
+                    rec["info"]["fsck_ok"] = int(ok)
+                    if not ok:
+                        rec["info"]["fsck"] = txt[-400:]
+                    rec["gitok"] = int(ok and rec["info"]["git_objects_agree"])
+            recs.append(rec)
+            before = (rec["r1"], rec["rtips1"], rec["shal1"])
+            if not rec["ok"]:
+                break
+        return recs
     finally:
         if not job.get("keep"):
             shutil.rmtree(root, ignore_errors=True)
@@ -449,7 +507,7 @@ def _want_shas(job, u):
 def _set_want_refs(rpath, job, u):
     """what the caller of client.fetch() does with the result: point refs at what was fetched"""
     for k, w in enumerate(job["wants"]):
-        L.write_ref(rpath, f"refs/verif/w{k}", u.sha[tuple(w)])
+        L.write_ref(rpath, f"refs/verif/w{job.get('step', 0)}_{k}", u.sha[tuple(w)])
 
 
 def _finish_capture(rec, u, data):
@@ -477,7 +535,7 @@ def fetch_local(job, u, spath, rpath, rec):
     ggw = r.get_graph_walker
     r.get_graph_walker = lambda *a, **kw: _RecWalker(ggw(*a, **kw), log)
     try:
-        LocalGitClient().fetch(spath, r, determine_wants=lambda refs, depth=None: list(wants))
+        LocalGitClient().fetch(spath, r, determine_wants=lambda refs, depth=None: list(wants), depth=job.get("depth") or None)
         rec["ok"] = 1
     except Exception as e:
         rec["err"] = repr(e)[:300]
@@ -501,7 +559,7 @@ def fetch_local_pack(job, u, spath, rpath, rec):
     buf = io.BytesIO()
     try:
         gw = _RecWalker(r.get_graph_walker(), log)
-        LocalGitClient().fetch_pack(spath, lambda refs, depth=None: list(wants), gw, buf.write)
+        LocalGitClient().fetch_pack(spath, lambda refs, depth=None: list(wants), gw, buf.write, depth=job.get("depth") or None)
         data = buf.getvalue()
         if data:
             f = io.BytesIO(data)
@@ -570,7 +628,7 @@ def fetch_tcp(job, u, spath, rpath, rec):
     r = Repo(rpath)
     srv.begin()
     try:
-        c.fetch(spath, r, determine_wants=lambda refs, depth=None: list(wants))
+        c.fetch(spath, r, determine_wants=lambda refs, depth=None: list(wants), depth=job.get("depth") or None)
         rec["ok"] = 1
     except Exception as e:
         rec["err"] = repr(e)[:300]
@@ -583,9 +641,110 @@ def fetch_tcp(job, u, spath, rpath, rec):
     rec["srv"] = d or []
     cd = _dialogue(u, clog, "cli")
     rec["cli"] = cd or []
+    if job.get("depth"):
+        rec["info"]["shallow_in_have_loop"] = _shallow_in_have_loop(clog)
     _finish_capture(rec, u, tee.buf.getvalue())
     if rec["ok"]:
         _set_want_refs(rpath, job, u)
+
+
+# ---- fetch over smart HTTP (stateless-rpc) from dulwich's WSGI application
+def _http_haves(u, slog, rec, sstore_names):
+    """the haves of the last upload-pack request that the server can have accepted"""
+    reqs, cur = [], None
+    for d, p in slog:
+        if d == "req":
+            cur = []
+            reqs.append((p, cur))
+        elif cur is not None:
+            cur.append((d, p))
+    rpcs = [ev for kind, ev in reqs if kind == b"rpc"]
+    rec["info"]["http_requests"] = len(rpcs)
+    if not rpcs:
+        return
+    hv = []
+    for d, p in rpcs[-1]:
+        if d == "r" and p and p.startswith(b"have "):
+            o = u.name.get(p[5:45].decode())
+            if o is not None and list(o) in sstore_names:
+                hv.append(list(o))
+    rec["hk"], rec["haves"] = 1, hv
+    for d, p in rpcs[-1]:
+        if d == "r" and p and p.startswith(b"want ") and b" " in p[46:]:
+            cl = p[46:].split()
+            rec["mode"] = "detailed" if b"multi_ack_detailed" in cl else "multi" if b"multi_ack" in cl else "single"
+            rec["inctag"] = 0
+            rec["info"]["client_caps"] = sorted(x.decode() for x in cl if not x.startswith(b"agent"))
+            break
+
+
+def fetch_http(job, u, spath, rpath, rec):
+    from dulwich.client import Urllib3HttpGitClient
+    from dulwich.repo import Repo
+    srv = _server()
+    port = srv.http()
+    wants = _want_shas(job, u)
+    c = Urllib3HttpGitClient(f"http://127.0.0.1:{port}/")
+    _apply_caps(c, job.get("caps", {}))
+    tee = _Tee()
+    tee.wrap_fetch_pack(c)
+    r = Repo(rpath)
+    srv.begin()
+    try:
+        c.fetch(spath.lstrip("/"), r, determine_wants=lambda refs, depth=None: list(wants), depth=job.get("depth") or None)
+        rec["ok"] = 1
+    except Exception as e:
+        rec["err"] = repr(e)[:300]
+    finally:
+        r.close()
+        try:
+            c.close()
+        except Exception:
+            pass
+        slog, _raw, serr = srv.end(wait=False)
+    _http_haves(u, slog, rec, rec["sstore"])
+    rec["inctag"] = 0
+    _finish_capture(rec, u, tee.buf.getvalue())
+    if rec["ok"]:
+        _set_want_refs(rpath, job, u)
+
+
+def fetch_githttp(job, u, spath, rpath, rec):
+    """C git client (git-remote-http) <- dulwich WSGI application"""
+    srv = _server()
+    port = srv.http()
+    caps = job.get("caps", {})
+    rec["rcv"] = "g"
+    names = {tuple(v): k for k, v in _sender_refs(job).items()}
+    specs = [f"+{names[tuple(w)]}:refs/verif/w{job.get('step', 0)}_{k}" for k, w in enumerate(job["wants"])]
+    packfile = rpath + ".packtrace"
+    dopt = []
+    if job.get("depth"):
+        dopt = ["--unshallow"] if job["depth"] >= 0x7FFFFFFF else [f"--depth={job['depth']}"]
+    args = ["-c", "protocol.version=0", "-c", "gc.auto=0", "-c", "fetch.writeCommitGraph=false", "-c", "http.proxy=",
+            "fetch", "-q", "--no-tags", *dopt, f"http://127.0.0.1:{port}{spath}"] + specs
+    srv.begin()
+    p = L.git(rpath, *args, check=False, env={"GIT_TRACE_PACKFILE": packfile, "no_proxy": "*", "NO_PROXY": "*"})
+    slog, _raw, serr = srv.end(wait=False)
+    rec["ok"] = int(p.returncode == 0)
+    if p.returncode != 0:
+        rec["err"] = p.stderr.decode("utf-8", "replace")[-300:]
+    _http_haves(u, slog, rec, rec["sstore"])
+    sent_wants = []
+    for d, pk in slog:
+        if d == "r" and pk and pk.startswith(b"want "):
+            o = u.name.get(pk[5:45].decode())
+            if o is not None and list(o) not in sent_wants:
+                sent_wants.append(list(o))
+    if sent_wants:
+        rec["info"]["asked"] = rec["wants"]
+        rec["wants"] = rec["mwants"] = sorted(sent_wants)
+    data = b""
+    if os.path.exists(packfile):
+        with open(packfile, "rb") as f:
+            data = f.read()
+        os.remove(packfile)
+    _finish_capture(rec, u, data)
 
 
 # ---- fetch, dulwich client <- C git upload-pack
@@ -607,7 +766,7 @@ def fetch_gitserver(job, u, spath, rpath, rec):
         os.environ["GIT_PROTOCOL"] = "version=2"
     try:
         c.fetch(spath, r, determine_wants=lambda refs, depth=None: list(wants),
-                protocol_version=2 if caps.get("v2") else 0)
+                protocol_version=2 if caps.get("v2") else 0, depth=job.get("depth") or None)
         rec["ok"] = 1
     except Exception as e:
         rec["err"] = repr(e)[:300]
@@ -618,6 +777,8 @@ def fetch_gitserver(job, u, spath, rpath, rec):
         else:
             os.environ["GIT_PROTOCOL"] = old
     rec["cli"] = [] if caps.get("v2") else (_dialogue(u, clog, "cli") or [])
+    if job.get("depth"):
+        rec["info"]["shallow_in_have_loop"] = _shallow_in_have_loop(clog)
     _finish_capture(rec, u, tee.buf.getvalue())
     if rec["ok"]:
         _set_want_refs(rpath, job, u)
@@ -631,14 +792,17 @@ def fetch_gitclient(job, u, spath, rpath, rec):
     specs = []
     names = {tuple(v): k for k, v in _sender_refs(job).items()}
     for k, w in enumerate(job["wants"]):
-        specs.append(f"{names[tuple(w)]}:refs/verif/w{k}")
+        specs.append(f"+{names[tuple(w)]}:refs/verif/w{job.get('step', 0)}_{k}")
     packfile = rpath + ".packtrace"
     cfg = ["-c", f"protocol.version={2 if caps.get('v2') else 0}", "-c", "fetch.unpackLimit=%d" % (1 if caps.get("keep_pack") else 100),
            "-c", "gc.auto=0", "-c", "fetch.writeCommitGraph=false"]
     if caps.get("negotiation"):
         cfg += ["-c", "fetch.negotiationAlgorithm=" + caps["negotiation"]]
-    args = cfg + ["fetch", "-q", "--no-tags" if not caps.get("inctag") else "--tags" if caps.get("alltags") else "-q",
-                  f"git://127.0.0.1:{srv.port}{spath}"] + specs
+    dopt = []
+    if job.get("depth"):
+        dopt = ["--unshallow"] if job["depth"] >= 0x7FFFFFFF else [f"--depth={job['depth']}"]
+    args = cfg + ["fetch", "-q", "--no-tags" if not caps.get("inctag") else "--tags" if caps.get("alltags") else "-q"] + dopt + [
+        f"git://127.0.0.1:{srv.port}{spath}"] + specs
     srv.begin()
     p = L.git(rpath, *args, check=False, env={"GIT_TRACE_PACKFILE": packfile})
     slog, _raw, serr = srv.end(wait=True)
@@ -686,7 +850,7 @@ def clone_generic(job, u, spath, rpath, rec, client, path, srv=None):
     if srv:
         srv.begin()
     try:
-        r = client.clone(path, rpath, mkdir=True, bare=True, origin="origin", checkout=False)
+        r = client.clone(path, rpath, mkdir=True, bare=True, origin="origin", checkout=False, depth=job.get("depth") or None)
         r.close()
         rec["ok"] = 1
     except Exception as e:
@@ -714,6 +878,22 @@ def clone_tcp(job, u, spath, rpath, rec):
     clone_generic(job, u, spath, rpath, rec, TCPGitClient("127.0.0.1", port=srv.port), spath, srv)
 
 
+def clone_http(job, u, spath, rpath, rec):
+    from dulwich.client import Urllib3HttpGitClient
+    srv = _server()
+    port = srv.http()
+    c = Urllib3HttpGitClient(f"http://127.0.0.1:{port}/")
+    srv.begin()
+    try:
+        clone_generic(job, u, spath, rpath, rec, c, spath.lstrip("/"))
+    finally:
+        srv.end(wait=False)
+        try:
+            c.close()
+        except Exception:
+            pass
+
+
 def clone_gitserver(job, u, spath, rpath, rec):
     from dulwich.client import SubprocessGitClient
     rec["snd"] = "g"
@@ -728,7 +908,8 @@ def clone_gitclient(job, u, spath, rpath, rec):
     packfile = rpath + ".packtrace"
     srv.begin()
     p = L.git(os.path.dirname(rpath), "-c", f"protocol.version={2 if caps.get('v2') else 0}", "-c", "gc.auto=0",
-              "clone", "-q", "--bare", f"git://127.0.0.1:{srv.port}{spath}", rpath, check=False,
+              "clone", "-q", "--bare", *([f"--depth={job['depth']}", "--no-single-branch"] if job.get("depth") else []),
+              f"git://127.0.0.1:{srv.port}{spath}", rpath, check=False,
               env={"GIT_TRACE_PACKFILE": packfile})
     slog, _raw, serr = srv.end()
     rec["ok"] = int(p.returncode == 0)
@@ -839,6 +1020,46 @@ def push_tcp(job, u, spath, rpath, rec):
         _finish_capture(rec, u, pack)
 
 
+def push_http(job, u, spath, rpath, rec):
+    from dulwich.client import Urllib3HttpGitClient
+    srv = _server()
+    port = srv.http()
+    c = Urllib3HttpGitClient(f"http://127.0.0.1:{port}/")
+    srv.begin()
+    try:
+        _push_with(c, job, u, spath, rpath, rec, rpath.lstrip("/"))
+    finally:
+        _slog, raw, serr = srv.end(wait=False)
+        try:
+            c.close()
+        except Exception:
+            pass
+    pack = _pack_from_stream(raw)
+    if pack:
+        _finish_capture(rec, u, pack)
+
+
+def push_githttp(job, u, spath, rpath, rec):
+    """C git push (git-remote-http) -> dulwich WSGI application"""
+    srv = _server()
+    port = srv.http()
+    rec["snd"] = "g"
+    plan = _push_plan(job, u)
+    specs = [f"{sha.decode()}:{name.decode()}" for name, sha in plan.items()]
+    srv.begin()
+    p = L.git(spath, "-c", "gc.auto=0", "-c", "http.proxy=", "push", "-q", f"http://127.0.0.1:{port}{rpath}", *specs, check=False,
+              env={"no_proxy": "*", "NO_PROXY": "*"})
+    _slog, raw, serr = srv.end(wait=False)
+    rec["ok"] = int(p.returncode == 0)
+    if p.returncode != 0:
+        rec["err"] = p.stderr.decode("utf-8", "replace")[-300:]
+    rec["srefs"] = rec["wants"]
+    i = raw.rfind(b"PACK")
+    pack = _pack_from_stream(raw)
+    if pack:
+        _finish_capture(rec, u, pack)
+
+
 def push_gitserver(job, u, spath, rpath, rec):
     """dulwich client -> C git receive-pack"""
     from dulwich.client import SubprocessGitClient
@@ -874,14 +1095,19 @@ TRANSPORTS = {
     ("fetch", "localpack"): fetch_local_pack,
     ("fetch", "mofapi"): fetch_mofapi,
     ("fetch", "tcp"): fetch_tcp,
+    ("fetch", "http"): fetch_http,
+    ("fetch", "githttp"): fetch_githttp,
     ("fetch", "gitserver"): fetch_gitserver,
     ("fetch", "gitclient"): fetch_gitclient,
     ("clone", "local"): clone_local,
     ("clone", "tcp"): clone_tcp,
+    ("clone", "http"): clone_http,
     ("clone", "gitserver"): clone_gitserver,
     ("clone", "gitclient"): clone_gitclient,
     ("push", "local"): push_local,
     ("push", "tcp"): push_tcp,
+    ("push", "http"): push_http,
+    ("push", "githttp"): push_githttp,
     ("push", "gitserver"): push_gitserver,
     ("push", "gitclient"): push_gitclient,
 }
